@@ -610,7 +610,26 @@ def check_ldperm(ev):
     A = {}
     for i, j, t in ev["A0"]:
         v = val(t, cplx); A[(i, j)] = float(cmod(v))
+    stored = set(A)
     A = {k: a for k, a in A.items() if a != 0}
+    if len(stored) != len(A):
+        # explicitly stored zeros: structural singularity is a matter of the stored pattern; when only the stored pattern
+        # (not the nonzeros) has a perfect matching nothing is demanded
+        def pm(P):
+            match = {}
+            def aug(j, seen):
+                for i in range(n):
+                    if (i, j) in P and i not in seen:
+                        seen.add(i)
+                        if i not in match or aug(match[i], seen):
+                            match[i] = j
+                            return True
+                return False
+            return all(aug(j, set()) for j in range(n))
+        if pm(stored) and not pm(set(A)):
+            return {"bad": []}
+        if not pm(stored):
+            return {"bad": [] if ev["ret"] != 0 else ["C17.structural_singularity_not_reported"]}
     # maximum of sum log|a(i,q(i))| over perfect matchings: rows in order, subsets of used columns
     NEG = float("-inf")
     best_of = {0: 0.0}
